@@ -213,6 +213,13 @@ func New(sections []*config_parser.Section) (conf *Config, err error) {
 	for _, spec := range configSectionSpecs {
 		section, ok := nameToSection[spec.name]
 		if !ok {
+			if spec.name == "dns" {
+				// The dns section is optional, but its documented defaults
+				// (optimistic_cache, optimistic_cache_ttl) apply all the same.
+				if err := decodeConfigSection(conf, spec.name, &config_parser.Section{Name: spec.name}); err != nil {
+					return nil, fmt.Errorf("failed to apply defaults of \"%v\": %w", spec.name, err)
+				}
+			}
 			continue
 		}
 		if err := decodeConfigSection(conf, spec.name, section.Val); err != nil {
